@@ -330,7 +330,30 @@ def eval_C09(item):
         res['pred'].append('label map differs after the round trip')
     for k in ('min_value', 'min_delta', 'min_npix'):
         if k not in d2.params or float(d2.params[k]) != float(d.params[k]):
-            res['pred'].append('parameter %s: saved %r, loaded %r' % (k, d.params[k], d2.params.get(k)))
+            # known finding K7: parameters travel in FITS header cards, and astropy formats a float card value
+            # into at most 20 characters: a float64 that needs 16-17 significant digits AND an exponent loses
+            # its last digit(s).  Signature: FITS, a float parameter, and the loaded value is exactly what
+            # astropy's card formatting of the saved value parses to.
+            k7 = False
+            if item['fmt'] == 'fits' and k in d2.params and k != 'min_npix':
+                try:
+                    from astropy.io.fits.card import _format_float
+                    cands = set()
+                    for v_ in (d.params[k], float(d.params[k])):
+                        try:
+                            cands.add(float(_format_float(v_)))
+                        except Exception:  # noqa
+                            pass
+                    k7 = float(d2.params[k]) in cands and \
+                        abs(float(d2.params[k]) - float(d.params[k])) <= 1e-6 * abs(float(d.params[k]))
+                except Exception:  # noqa
+                    k7 = False
+            if k7:
+                res['known'].append(('K7', 'FITS header cards hold the decimal text of a float in at most 20 characters (and the short text '
+                                           'of a float32 scalar): min_value / min_delta needing more digits come back changed in the last digits'))
+                res['tags'].append('K7')
+            else:
+                res['pred'].append('parameter %s: saved %r, loaded %r' % (k, d.params[k], d2.params.get(k)))
     if getattr(d2, 'n_dim', None) != d.n_dim:
         res['pred'].append('n_dim: saved %r, loaded %r' % (d.n_dim, getattr(d2, 'n_dim', None)))
     if wcs is None:
